@@ -24,8 +24,8 @@ import (
 	"os"
 	"path/filepath"
 	"reflect"
-	"sort"
 	"runtime"
+	"sort"
 	"strconv"
 	"strings"
 	"sync"
